@@ -31,6 +31,24 @@ Definition e_text (e : expr) := let '(E t _ _) := e in t.
 Definition e_reads (e : expr) := let '(E _ r _) := e in r.
 Definition e_calls (e : expr) := let '(E _ _ c) := e in c.
 
+(** what a sort statement orders by.  A key term says what the comparator looks at in an element; the comparator is
+    [CmpNamed T] for sort.Sort(T(s)) (T's Less method), [CmpKey rel via key_type ki kj] for a comparator function whose
+    body is [return KI rel KJ] ([via] = "") or [return via(KI, KJ) rel 0] with [via] one of bytes.Compare /
+    strings.Compare ([sort.Slice], [sort.SliceStable], [slices.SortFunc], [sort.Strings] ...), [CmpOther] for anything
+    else. *)
+Inductive keyterm :=
+| KElem                                        (* the element itself: s[i], or the comparator's parameter *)
+| KMethod (fullname : string) (k : keyterm)    (* k.M()  (no arguments) *)
+| KSliceAll (k : keyterm)                      (* k[:] *)
+| KConv (to : string) (k : keyterm)            (* T(k) *)
+| KOther (text : string).                      (* a field, an index, a prefix k[:n], a call with arguments, ...: not a
+                                                  function the whole element can be recovered from *)
+
+Inductive comparator :=
+| CmpNamed (type : string)
+| CmpKey (rel via key_type : string) (ki kj : keyterm)
+| CmpOther (text : string).
+
 Inductive stmt :=
 | SStore (m : string) (key val : expr)              (* m[key] = val            (m an identifier) *)
 | SAppend (s : string) (val : expr)                 (* s = append(s, val)      (s an identifier) *)
@@ -42,7 +60,7 @@ Inductive stmt :=
 | SReturn (vals : list expr)
 | SPanic (arg : expr)
 | SContinue                                         (* continue (of THIS loop: unlabelled, not inside a nested loop) *)
-| SSort (s : string) (by_type : string)             (* sort.Sort(by_type(s)) *)
+| SSort (s : string) (c : comparator)               (* a sort of the slice s (see [comparator]) *)
 | SOther (text : string).                           (* everything else (assignment to an existing variable, ++, +=,
                                                        break, continue, goto, defer, go, delete, calls as statements,
                                                        nested loops, ...) — never classified *)
@@ -290,10 +308,68 @@ Inductive shape :=
                   entries that write the same key of the same map write the same value (premise [store_consistent]) *)
 | ShSearch     (* leaves: skip / ONE return whose expressions read no loop or let variable.  Result = "some entry
                   returns" *)
-| ShCollectSort (slice sorter : string).
+| ShCollectSort (slice : string) (c : comparator).
                (* leaves: skip / append to ONE slice, and the statement right after the loop sorts that slice: the
                   collected slice is a permutation across orders, the sorted one is equal for a sorter whose result is
                   a function of the multiset ([canonical_sorters]) *)
+
+(** ** comparators under which a sort is a function of the multiset
+
+    A sort by a strict total order on the elements returns the same slice for every arrangement of the same elements,
+    whatever the algorithm ([Proofs/MapLoopsIR.v: keyed_sort_is_canonical]).  [CmpKey rel via key_type ki kj] is such an
+    order when both sides apply the SAME key term, the key term is INJECTIVE (the whole element can be recovered from the
+    key: identity, a full-content accessor, a full slice, a string/[]byte conversion — not a field, an index or a
+    prefix), and the keys are compared by a total order: [<] / [>] on strings and integers (not floats: NaN), or
+    bytes.Compare / strings.Compare against 0. *)
+Definition injective_methods : list string := [
+  "(github.com/ethereum/go-ethereum/common.Address).Bytes";
+  "(github.com/ethereum/go-ethereum/common.Address).Hex";
+  "(github.com/ethereum/go-ethereum/common.Address).String";
+  "(github.com/ethereum/go-ethereum/common.Address).Hash";
+  "(github.com/ethereum/go-ethereum/common.Hash).Bytes";
+  "(github.com/ethereum/go-ethereum/common.Hash).Hex";
+  "(github.com/ethereum/go-ethereum/common.Hash).String";
+  "(github.com/cosmos/cosmos-sdk/types.AccAddress).String";
+  "(github.com/cosmos/cosmos-sdk/types.AccAddress).Bytes";
+  "(github.com/cosmos/cosmos-sdk/types.ValAddress).String";
+  "(github.com/cosmos/cosmos-sdk/types.ValAddress).Bytes"
+].
+
+Definition injective_conversions : list string := ["string"; "[]byte"].
+
+Fixpoint key_injective (k : keyterm) : bool :=
+  match k with
+  | KElem => true
+  | KMethod m k' => mem m injective_methods && key_injective k'
+  | KSliceAll k' => key_injective k'
+  | KConv t k' => mem t injective_conversions && key_injective k'
+  | KOther _ => false
+  end.
+
+Fixpoint keyterm_eqb (a b : keyterm) : bool :=
+  match a, b with
+  | KElem, KElem => true
+  | KMethod m k, KMethod m' k' => String.eqb m m' && keyterm_eqb k k'
+  | KSliceAll k, KSliceAll k' => keyterm_eqb k k'
+  | KConv t k, KConv t' k' => String.eqb t t' && keyterm_eqb k k'
+  | _, _ => false
+  end.
+
+Definition ordered_key_types : list string :=
+  ["string"; "int"; "int8"; "int16"; "int32"; "int64"; "uint"; "uint8"; "uint16"; "uint32"; "uint64"; "byte"; "rune"; "uintptr"].
+
+(** [CmpNamed] is accepted here and settled against the reviewed Less methods in [Model/DeterminismCheck.v: sorter_ok] *)
+Definition comparator_ok (c : comparator) : bool :=
+  match c with
+  | CmpNamed _ => true
+  | CmpKey rel via key_type ki kj =>
+      keyterm_eqb ki kj && key_injective ki && (String.eqb rel "<" || String.eqb rel ">") &&
+      (if String.eqb via "" then mem key_type ordered_key_types
+       else if String.eqb via "bytes.Compare" then String.eqb key_type "[]byte"
+       else if String.eqb via "strings.Compare" then String.eqb key_type "string"
+       else false)
+  | CmpOther _ => false
+  end.
 
 Definition all_same (l : list string) : bool :=
   match l with [] => true | x :: t => forallb (String.eqb x) t end.
@@ -313,7 +389,7 @@ Definition classify_tree (kvar vvar : string) (ranged : expr) (after : list stmt
       end
     else if ap && negb st && negb rt && negb pn && all_same (tree_writes t) then
       match tree_writes t, after with
-      | s :: _, SSort s' by_type :: _ => if String.eqb s s' then Some (ShCollectSort s by_type) else None
+      | s :: _, SSort s' c :: _ => if String.eqb s s' && comparator_ok c then Some (ShCollectSort s c) else None
       | _, _ => None
       end
     else None.
